@@ -75,10 +75,13 @@ std::string dec_expected(std::string_view s) {  // the Standard's percent-decode
 
 // ---- routes of the exhaustive part.  Each takes the probe text and returns "" or a failure.
 template <class U>
-std::string direct_routes(const char* tname, const std::string& probe, uint32_t cp) {
-  std::string w = std::string(tname) + " probe \"" + vf::show(probe) + "\": ";
+std::string direct_routes(const char* tname, const std::string& probe, uint32_t cp, const char* sp = "http://h/p", const char* ns = "foo://h/p") {
+  // sp / ns: the special and the non-special URL the setters are applied to.  The expected
+  // component does not depend on what else the URL carries (credentials, port, query,
+  // fragment), but the code path of the setter does (in-place splice vs append).
+  std::string w = std::string(tname) + " probe \"" + vf::show(probe) + "\" on " + sp + " / " + ns + ": ";
   {  // userinfo: set_username / set_password (API setters do not strip TAB/LF/CR)
-    auto u = ada::parse<U>("http://h/");
+    auto u = ada::parse<U>(sp);
     if (!u->set_username(probe)) return w + "set_username refused";
     if (std::string(u->get_username()) != enc_expected(probe, USERINFO)) return w + "set_username -> \"" + std::string(u->get_username()) + "\" expected \"" + enc_expected(probe, USERINFO) + "\"";
     if (!u->set_password(probe)) return w + "set_password refused";
@@ -87,27 +90,27 @@ std::string direct_routes(const char* tname, const std::string& probe, uint32_t 
   }
   std::string stripped = strip_tnl(probe);
   {  // query (non-special) and special-query: set_search
-    auto u = ada::parse<U>("foo://h/p");
+    auto u = ada::parse<U>(ns);
     u->set_search(probe);
     std::string exp = "?" + enc_expected(stripped, QUERY);
     if (std::string(u->get_search()) != exp) return w + "set_search on foo: -> \"" + std::string(u->get_search()) + "\" expected \"" + exp + "\"";
-    auto v = ada::parse<U>("http://h/p");
+    auto v = ada::parse<U>(sp);
     v->set_search(probe);
     exp = "?" + enc_expected(stripped, SPECIAL_QUERY);
     if (std::string(v->get_search()) != exp) return w + "set_search on http: -> \"" + std::string(v->get_search()) + "\" expected \"" + exp + "\"";
   }
   {  // fragment: set_hash
-    auto u = ada::parse<U>("http://h/p");
+    auto u = ada::parse<U>(sp);
     u->set_hash(probe);
     std::string exp = "#" + enc_expected(stripped, FRAGMENT);
     if (std::string(u->get_hash()) != exp) return w + "set_hash -> \"" + std::string(u->get_hash()) + "\" expected \"" + exp + "\"";
   }
   if (cp != '/' && cp != '\\' && cp != '.') {  // path: set_pathname (separators and dots have structure; RefURL covers them)
-    auto u = ada::parse<U>("foo://h/p");
+    auto u = ada::parse<U>(ns);
     if (!u->set_pathname("/" + probe)) return w + "set_pathname refused";
     std::string exp = "/" + enc_expected(stripped, PATH);
     if (std::string(u->get_pathname()) != exp) return w + "set_pathname on foo: -> \"" + std::string(u->get_pathname()) + "\" expected \"" + exp + "\"";
-    auto v = ada::parse<U>("http://h/p");
+    auto v = ada::parse<U>(sp);
     if (!v->set_pathname("/" + probe)) return w + "set_pathname refused (http)";
     if (std::string(v->get_pathname()) != exp) return w + "set_pathname on http: -> \"" + std::string(v->get_pathname()) + "\" expected \"" + exp + "\"";
   }
@@ -185,6 +188,15 @@ void run_case(const uint8_t* data, size_t size, vf::Case& c) {
     VF_TAG("exhaustive_cell");
     std::string d = direct_routes<ada::url>("ada::url", probe, cp);
     if (d.empty()) d = direct_routes<ada::url_aggregator>("ada::url_aggregator", probe, cp);
+    // the same code point at other offsets (the encoders scan in 8-byte blocks) and on a URL
+    // whose later components exist already (in-place splice instead of append)
+    for (unsigned pad : {0u, 5u, 9u, 14u}) {
+      if (!d.empty()) break;
+      std::string padded = std::string(pad, 'w') + probe + std::string(8, 'z');
+      d = direct_routes<ada::url_aggregator>("ada::url_aggregator", padded, cp, "https://u:pw@h:8080/p/q?x=1#frag", "foo://u:pw@h:8080/p/q?x=1#frag");
+      if (d.empty()) d = direct_routes<ada::url>("ada::url", padded, cp, "https://u:pw@h:8080/p/q?x=1#frag", "foo://u:pw@h:8080/p/q?x=1#frag");
+      if (d.empty() && pad) d = direct_routes<ada::url_aggregator>("ada::url_aggregator", padded, cp);
+    }
     if (d.empty()) d = model_routes<ada::url>("ada::url", probe);
     if (d.empty()) d = model_routes<ada::url_aggregator>("ada::url_aggregator", probe);
     if (d.empty()) d = params_route(probe);
@@ -306,9 +318,15 @@ void run_case(const uint8_t* data, size_t size, vf::Case& c) {
       if (c.want_render) c.render = "component text \"" + vf::show(probe) + "\" through the setter and parse routes";
       std::string d;
       if (probe.find_first_of("/\\.") == std::string::npos && !probe.empty()) {
-        std::string p2 = "a" + probe;
-        d = direct_routes<ada::url_aggregator>("ada::url_aggregator", p2, 'a');
-        if (d.empty()) d = direct_routes<ada::url>("ada::url", p2, 'a');
+        static const char* sps[] = {"http://h/p", "http://h/p?q#f", "https://u:pw@h:8080/p/q?x=1#frag", "ws://h/#f", "http://h/p?q", "ftp://u@h/p#", "http://h:1/?#"};
+        static const char* nss[] = {"foo://h/p", "foo://h/p?q#f", "foo://u:pw@h:8080/p/q?x=1#frag", "foo://h/#f", "foo://h/p?q", "foo://u@h/p#", "foo://h:1/?#"};
+        unsigned which = b.below(7);
+        std::string p2 = std::string(1 + b.below(20), 'a') + probe;
+        if (b.coin()) p2 += std::string(b.below(12), 'z');
+        vf::tag_dynamic(std::string("start:") + sps[which]);
+        VF_TAG_IF(p2.size() >= 8, "probe_ge_8");
+        d = direct_routes<ada::url_aggregator>("ada::url_aggregator", p2, 'a', sps[which], nss[which]);
+        if (d.empty()) d = direct_routes<ada::url>("ada::url", p2, 'a', sps[which], nss[which]);
       }
       if (d.empty()) d = model_routes<ada::url_aggregator>("ada::url_aggregator", probe);
       if (!d.empty()) c.fail(d);
